@@ -1261,7 +1261,7 @@ def c05_streams(ctx):
             cs = [Case(q, "", "compile", ""), Case(q, "", "is_match", "c"), Case(q, "", "replace", "ac", "$1"), Case(q, "", "tokenize", "ac"), Case(q, "", "analyze", "ac")]
             gs.append(Group(cs, {"features": set(), "input": "ac", "kind": "edit-neighbourhood"}))
     # regression corpus (past failures run on every check) + back-references to groups that are re-entered in a loop
-    corpus = [("(?:(a)\\1*a){2}", "aaab"), ("(?:.b?)*?(a)??\\1c", "abc"), ("(?:a{9223372036854775808})?", "a"), ("^(?:a|b)[cd]{2}", "ac"), ("a(b?)c", "ac"), ("(", "(")]
+    corpus = [("(?:(a)\\1*a){2}", "aaab"), ("(?:.b?)*?(a)??\\1c", "abc"), ("(?:a{9223372036854775808})?", "a"), ("^(?:a|b)[cd]{2}", "ac"), ("a(b?)c", "ac"), ("(", "("), ("(?:^|a){18446744073709551615}?", "ba"), ("(?:b|^|.{3}){4000000000}?c", "abc")]
     for p, s in corpus:
         f = "q" if p == "(" else ""
         cs = [Case(p, f, "compile", ""), Case(p, f, "is_match", s), Case(p, f, "replace", s, "$1"), Case(p, f, "tokenize", s), Case(p, f, "analyze", s)]
